@@ -106,6 +106,26 @@ def build_jobs():
         "@compute @workgroup_size(1) fn cs() { _ = pc3[1]; }\n")
     for k in range(3):
         shaders["big%d.wgsl" % k] = big_shader(420 + 40 * k, k)
+    # refusals are results too: which error (and which index it names) must not depend on the
+    # process: several distinct slots declared twice, several gaps in the group numbering,
+    # several errors in one text
+    dup = []
+    for k, (g, b) in enumerate([(0, 3), (1, 0), (0, 7), (2, 9), (1, 5), (3, 1), (0, 11), (2, 2)]):
+        dup.append("@group(%d) @binding(%d) var<uniform> a%d: vec4<f32>;" % (g, b, k))
+    for k, (g, b) in enumerate([(2, 9), (0, 7), (3, 1), (1, 5), (0, 3), (1, 0), (2, 2), (0, 11)]):
+        dup.append("@group(%d) @binding(%d) var<storage, read> b%d: array<f32>;" % (g, b, k))
+    dup.append("@compute @workgroup_size(1) fn main() { }")
+    shaders["dupslots.wgsl"] = "\n".join(dup) + "\n"
+    shaders["dupslots_rev.wgsl"] = "\n".join(dup[:-1][::-1] + dup[-1:]) + "\n"
+    shaders["gaps.wgsl"] = "\n".join(
+        ["@group(%d) @binding(%d) var<uniform> a%d: vec4<f32>;" % (g, k, k)
+         for k, g in enumerate([7, 2, 9, 4, 0, 12])] + ["@compute @workgroup_size(1) fn main() { }"])
+    shaders["manyerrors.wgsl"] = "fn a() -> f32 { return missing1; }\nfn b() { let x: u32 = 1.5; }\n" \
+        "@compute @workgroup_size(1) fn main() { undefined_fn(); }\n"
+    shaders["invalid.wgsl"] = "@group(0) @binding(0) var<uniform> u: vec4<f32>;\n" \
+        "@group(0) @binding(0) var<uniform> w: vec4<f32>;\n" \
+        "@fragment fn fs() -> @location(0) vec4<f32> { return u + w; }\n" \
+        "@vertex fn vs() -> vec4<f32> { return u; }\n"
     jobs = []
     for name, src in sorted(shaders.items()):
         for oi, opt in enumerate(OPTION_SETS):
@@ -154,7 +174,8 @@ def syscall_monitor(binp, jobs, work, real_dir, viol, stats):
     with open(os.path.join(cwd, "shader.wgsl"), "w") as f:
         f.write("// decoy\n")
     p, res = core.run_drive(binp, allj, "c18/strace", markers=True, cwd=cwd, timeout=900,
-                            extra_env={"PATH": real_dir + ":/usr/bin:/bin"},
+                            extra_env={"PATH": real_dir + ":/usr/bin:/bin",
+                                       "RUSTFMT": "/bin/false", "FORMATTER": "/bin/false"},
                             wrapper=["strace", "-f", "-qq", "-s", "64", "-o", tr])
     if p.returncode != 0 or len(res) != len(allj):
         raise core.Inconclusive("strace run failed rc=%s: %s" % (p.returncode, p.stderr[-1500:]))
@@ -304,7 +325,7 @@ def main(tier, replay, t0):
             if r["result"] == "ok":
                 h = r["text_sha"]
             elif r["result"] == "err":
-                h = "ERR:%s:%s" % (r.get("err_kind"), r.get("err_payload"))
+                h = "ERR:%s:%s:%s" % (r.get("err_kind"), r.get("err_payload"), r.get("display"))
                 stats["declined"] += 1
             else:
                 h = "PANIC:" + (r.get("panic") or "").split(" @ ")[0][:80]
@@ -376,10 +397,19 @@ def main(tier, replay, t0):
     # formatter on: same directory discipline (no rustfmt.toml), subset of jobs
     if real:
         fj = [dict(j, id=j["id"] + "#fmt", opt=dict(j["opt"], fmt=True)) for j in jobs[::7]]
-        for k in range(2):
+        for k in range(4):
+            # the environment is not an input either: variables other tools give a meaning to
+            # (RUSTFMT, CARGO, RUSTUP_TOOLCHAIN ...) must not select another formatter
+            # (HOME / RUSTUP_* / CARGO_HOME stay as they are: `rustfmt` is a rustup proxy here
+            # and those select the real formatter's toolchain - the formatter's own business)
+            fe = [{}, {"RUSTFMT": "/bin/false"},
+                  {"RUSTFMT": "/nonexistent/rustfmt", "RUSTFMT_PATH": "/bin/false",
+                   "FORMATTER": "/bin/false", "WGSL_TO_WGPU_RUSTFMT": "/bin/false"},
+                  {"RUSTFMT": os.path.join(core.VERIF, "stubs", "garbage_exit3", "rustfmt"),
+                   "NO_COLOR": "1", "TERM": "dumb", "LANG": "tr_TR.UTF-8"}][k]
+            fe["PATH"] = real_dir + ":/usr/bin:/bin"
             p, res = core.run_drive(binp, fj, "c18/f%d" % k, shuffle=k + 5,
-                                    cwd=cwd_b if k else cwd_a,
-                                    extra_env={"PATH": real_dir + ":/usr/bin:/bin"})
+                                    cwd=cwd_b if k % 2 else cwd_a, extra_env=fe)
             if p.returncode != 0 or len(res) != len(fj):
                 raise core.Inconclusive("formatter run failed: %s" % p.stderr[-1500:])
             record("f%d" % k, res)
